@@ -148,7 +148,7 @@ static void build_devs (void)
 	ADD (D_WIDE, 0, 3);
 	for (int v = 0; v < 2; v++) ADD (D_ROUTE, 0, v);
 	/* bounds that end exactly at zero (the writers treat a zero bound as the default in several places) */
-	for (int c = 0; c < 2; c++) for (int v = 8; v < 11; v++) ADD (D_BOUND, c, v);
+	for (int c = 0; c < 2; c++) for (int v = 8; v < 13; v++) ADD (D_BOUND, c, v);
 	/* a right-hand side of 5001 digits: the written line is longer than any fixed I/O buffer */
 	ADD (D_RHS, 0, 4);
 #undef ADD
@@ -218,6 +218,8 @@ static int apply_devs (RefLP * M, const int *set, int k, int *target, SBuf * des
 			case 8: set_bounds (M, d.target, NULL, "0"); break;
 			case 9: set_bounds (M, d.target, "-2", "0"); break;
 			case 10: set_bounds (M, d.target, "-2", NULL); break;
+			case 11: set_bounds (M, d.target, "-3", "1"); break;       /* upper bound exactly 1 (the binary default) with a negative / no lower bound */
+			case 12: set_bounds (M, d.target, NULL, "1"); break;
 			default: set_bounds (M, d.target, NULL, "3"); break;
 			}
 			sb_printf (desc, "bound%d:shape%d ", d.target, d.val); break;
